@@ -10,7 +10,7 @@ def get_lines_with_length_that_exceed_column(iColumn, lAllTokens, oTokenMap):
     lReturn = []
     lTemp = []
     iStart = None
-    bFirstTokenInLine = False
+    bFirstTokenInLine = True
     for iToken, oToken in enumerate(lAllTokens):
         if isinstance(oToken, parser.carriage_return):
             if utils.does_length_of_tokens_exceed(lTemp, iColumn):
@@ -24,5 +24,6 @@ def get_lines_with_length_that_exceed_column(iColumn, lAllTokens, oTokenMap):
 
         if bFirstTokenInLine:
             iStart = iToken
+            bFirstTokenInLine = False
 
     return lReturn
